@@ -232,10 +232,17 @@ func (p *Processor) ChargingDataUpdate(
 	ue.CULock.Lock()
 	defer ue.CULock.Unlock()
 
+	cdr, ok := ue.Cdr[chargingSessionId]
+	if !ok {
+		logger.ChargingdataPostLog.Errorf("Charging session[%s] not found", chargingSessionId)
+		problemDetails := &models.ProblemDetails{
+			Status: http.StatusNotFound,
+		}
+		return nil, problemDetails
+	}
+
 	// Online charging: Rate, Account, Reservation
 	responseBody, partialRecord := p.BuildConvergedChargingDataUpdateResopone(chargingData)
-
-	cdr := ue.Cdr[chargingSessionId]
 
 	cdrBytes, errCdrBer := asn.BerMarshalWithParams(&cdr, "explicit,choice")
 	if errCdrBer != nil {
@@ -347,9 +354,16 @@ func (p *Processor) ChargingDataRelease(
 	ue.CULock.Lock()
 	defer ue.CULock.Unlock()
 
-	sessionChargingReservation(chargingData)
+	cdr, ok := ue.Cdr[chargingSessionId]
+	if !ok {
+		logger.ChargingdataPostLog.Errorf("Charging session[%s] not found", chargingSessionId)
+		problemDetails := &models.ProblemDetails{
+			Status: http.StatusNotFound,
+		}
+		return problemDetails
+	}
 
-	cdr := ue.Cdr[chargingSessionId]
+	sessionChargingReservation(chargingData)
 
 	err := p.UpdateCDR(cdr, chargingData)
 	if err != nil {
